@@ -56,6 +56,7 @@ func CheckC07(c *Ctx) int {
 	c.ModelCheck("Bolt", "MC_Isolation.cfg", 16, 30*time.Minute)
 	c.ModelCheck("Bolt", "MC_Fault_nofl.cfg", 16, 30*time.Minute)
 	c.ModelCheck("Bolt", "MC_Crash.cfg", 16, 30*time.Minute)
+	c.ModelCheck("BTree", "MC_BTree.cfg", 8, 10*time.Minute)
 	if c.Thorough() {
 		c.ModelCheck("Bolt", "MC_Fault_deep.cfg", 16, 60*time.Minute)
 	}
@@ -71,6 +72,32 @@ func CheckC07(c *Ctx) int {
 	scs = append(scs, faultScenarios("c07f", c.Pick(6, 60), c.Seed, false)...)
 	o := RunScenarios(scs, ValidateSpec{Bolt: true}, filepath.Join(c.WorkDir, "runs"), 14, 5, c.ChildTimeout())
 	c.Absorb(o)
+	// the shape of the committed trees (BTree.tla: elements inside their page, balanced, no empty non-root
+	// leaf, branches with >= 2 children, inline buckets small and bucket-free), judged by TLC on the
+	// decoder's page / bucket records of files with multi-level trees
+	fdir := filepath.Join(c.WorkDir, "shapes")
+	_ = os.MkdirAll(fdir, 0o755)
+	var shapes []Ev
+	pagesSeen := 0
+	for i, bf := range buildFiles(fdir, c.Pick(24, 240), c.Seed+77, false) {
+		d, err := DecodeFile(bf.Path)
+		os.Remove(bf.Path)
+		if err != nil {
+			continue
+		}
+		pg, bk := d.Pages, d.Buckets
+		if pg == nil {
+			pg = []PageShape{}
+		}
+		if bk == nil {
+			bk = []BucketShape{}
+		}
+		pagesSeen += len(pg)
+		shapes = append(shapes, Ev{"ev": "Shape", "name": fmt.Sprintf("shape-%d-ps%d-%s", i, bf.Opts.PageSize, bf.Profile.Name), "ps": d.PageSize, "pages": pg, "buckets": bk})
+	}
+	c.evalFormat(shapes, 8, "shape")
+	c.Cov["tree_shapes_checked"] = len(shapes)
+	c.Cov["tree_pages_in_shapes"] = pagesSeen
 	c.Cov["evaluations"] = o.Counters["decoded"]
 	c.Cov["distinct_nontrivial"] = DistinctNontrivial(o.PerScenario, func(m map[string]int) bool { return m["decoded"] > 3 && m["free"] > 5 })
 	c.Cov["rule"] = "evaluations = independent decodes of the file (after every write transaction and every open) compared by TLC with the specification's tree / freelist / free sets and the partition predicate; non-trivial: >= 4 decodes and > 5 pages freed"
